@@ -53,25 +53,25 @@ fn walk_mix<M: NodeMon>(ctx: &Ctx, rep: &mut Report, mon: &mut M, quick: u64, th
 pub fn run_c01(ctx: &Ctx, rep: &mut Report) {
     let mut mon = C01 { variant: ctx.variant };
     let d = if ctx.tier == Tier::Thorough { 3 } else { 2 };
-    walk_mix(ctx, rep, &mut mon, 900, 30_000, 2, 300, (20, 120), d);
+    walk_mix(ctx, rep, &mut mon, 1500, 30_000, 2, 300, (20, 120), d);
 }
 
 pub fn run_c02(ctx: &Ctx, rep: &mut Report) {
     let mut mon = C02 { variant: ctx.variant, dirty: None };
     let d = if ctx.tier == Tier::Thorough { 3 } else { 2 };
-    walk_mix(ctx, rep, &mut mon, 700, 25_000, 2, 250, (20, 120), d);
+    walk_mix(ctx, rep, &mut mon, 2000, 25_000, 2, 250, (20, 120), d);
 }
 
 pub fn run_c03(ctx: &Ctx, rep: &mut Report) {
     let mut mon = C03 { variant: ctx.variant };
     let d = if ctx.tier == Tier::Thorough { 4 } else { 3 };
-    walk_mix(ctx, rep, &mut mon, 2500, 80_000, 2, 400, (20, 160), d);
+    walk_mix(ctx, rep, &mut mon, 6000, 80_000, 2, 400, (20, 160), d);
 }
 
 pub fn run_c05(ctx: &Ctx, rep: &mut Report) {
     let mut mon = C05 { prev: None };
     let d = if ctx.tier == Tier::Thorough { 4 } else { 3 };
-    walk_mix(ctx, rep, &mut mon, 3500, 100_000, 2, 400, (60, 250), d);
+    walk_mix(ctx, rep, &mut mon, 9000, 100_000, 2, 400, (60, 250), d);
 }
 
 pub fn run_c06(ctx: &Ctx, rep: &mut Report) {
@@ -89,7 +89,7 @@ pub fn run_c06(ctx: &Ctx, rep: &mut Report) {
             playout(&st, &cfg, rng, &mut mon, rep);
         }
     });
-    walk_mix(ctx, rep, &mut mon, 1800, 60_000, 2, 300, (20, 120), d);
+    walk_mix(ctx, rep, &mut mon, 7000, 60_000, 2, 300, (20, 120), d);
 }
 
 pub fn run_hash(ctx: &Ctx, rep: &mut Report, p8: bool, p9: bool) {
@@ -99,25 +99,25 @@ pub fn run_hash(ctx: &Ctx, rep: &mut Report, p8: bool, p9: bool) {
     // transposition-rich: few-piece positions are over-weighted through the sparse synthesiser
     let corpus = corpus_positions();
     let is_miri = ctx.variant == Variant::Miri;
-    let n = ctx.budget(600, 20_000, 1, 100);
+    let n = ctx.budget(1200, 20_000, 1, 100);
     ctx.cases(rep, "sparse", n, |_gid, rng, rep| {
         let start = if rng.chance(1, 2) { Start::plain(synth::synth(rng, Density::Sparse), "synth_sparse") } else { Start::plain(corpus[rng.below(corpus.len())].clone(), "corpus") };
         let cfg = WalkCfg { max_plies: if is_miri { 3 } else { rng.range(40, 160) }, null_per_mille: 30, stop_on_divergence: true };
         let nodes = playout(&start, &cfg, rng, &mut mon, rep);
         rep.add("ev_nodes", nodes as u64);
     });
-    walk_mix(ctx, rep, &mut mon, 1100, 30_000, 1, 200, (20, 120), d);
+    walk_mix(ctx, rep, &mut mon, 2200, 30_000, 1, 200, (20, 120), d);
     mon.flush(&ctx.out_dir, ctx.shard, rep);
 }
 
 pub fn run_c17(ctx: &Ctx, rep: &mut Report) {
     let mut mon = C17 { inc_v: None, inc_h: None };
     let d = if ctx.tier == Tier::Thorough { 3 } else { 2 };
-    walk_mix(ctx, rep, &mut mon, 900, 30_000, 1, 200, (20, 100), d);
+    walk_mix(ctx, rep, &mut mon, 5000, 50_000, 1, 200, (20, 100), d);
 }
 
 pub fn run_c18(ctx: &Ctx, rep: &mut Report) {
     let mut mon = C18 {};
     let d = if ctx.tier == Tier::Thorough { 4 } else { 3 };
-    walk_mix(ctx, rep, &mut mon, 3000, 90_000, 2, 400, (20, 140), d);
+    walk_mix(ctx, rep, &mut mon, 15000, 150_000, 2, 400, (20, 140), d);
 }
